@@ -113,3 +113,9 @@ package types
 //@   invariant 0 <= \i && \i <= len(denoms) && arr(seenDenoms) != 0 && denomsAccepted(denoms, \i)
 //@   invariant forall k: int :: {denoms[k]} 0 <= k && k < \i ==> hasKey(seenDenoms, denoms[k]) && seenDenoms[denoms[k]]
 //@   invariant forall i: int, j: int :: {denoms[i], denoms[j]} 0 <= i && i < j && j < \i ==> denoms[i] != denoms[j]
+
+//@ // ---- C08: what the send validation accepts: exactly the well-formed requests, amount zero included ----
+//@ func ValidateSendToVestingAccount(owner, toAddr, vestingPoolName, amount) (ownerAcc, toAcc, err)
+//@   ensures [accepts-exactly] (err == nil) == (vestingPoolName != "" && !amount.IsNil() && amount >= 0 && owner != toAddr && bech32ok(owner) && bech32ok(toAddr))
+//@   ensures err == nil ==> ownerAcc == fromBech32(owner) && toAcc == fromBech32(toAddr)
+//@   prop C08 C20
